@@ -166,6 +166,17 @@ Theorem c15_sat_without_valid_from_refuted :
 Proof. exact sat_without_from_refuted. Qed.
 Print Assumptions c15_sat_without_valid_from_refuted.
 
+(* a satellite block without VALID UNTIL is "still valid": valid_until = datetime.max; stamping it with the time of
+   parsing (the behaviour before /repo 704e441) is not the specification *)
+Theorem c15_valid_until_now_refuted :
+  good_file wfile2 = true /\ parse (quirks_of_mask 32) std_table (render_file wfile2) <> Ok (expected wfile2)
+  /\ match expected wfile2 with
+     | (_, e) :: _ => match en_sat e with Some s => si_until s = Some max_us | None => False end
+     | [] => False
+     end.
+Proof. exact until_now_refuted. Qed.
+Print Assumptions c15_valid_until_now_refuted.
+
 (* non-vacuity: a concrete two-frequency satellite block with azimuth rows, a FREQ RMS section, a non-dyadic zenith
    step and 59.9999999 s in VALID UNTIL satisfies the hypotheses of the theorems above *)
 Example good_file_nonvacuous :
